@@ -98,9 +98,20 @@ Print Assumptions C20_asbool_spelling.
 
 Theorem C20_defaults :
   default_host = [48;46;48;46;48;46;48] /\ default_port = 8080 /\ default_ipv4 = true /\ default_ipv6 = true
-  /\ defaults_proxy_and_sockets_empty = true /\ assign_loop_standard = true.
+  /\ defaults_proxy_and_sockets_empty = true /\ assign_loop_standard = true
+  /\ proxy_default_count = 1 /\ proxy_default_headers = [xfwd [112;114;111;116;111]].
 Proof. exact defaults_match. Qed.
 Print Assumptions C20_defaults.
+
+(* ---------- nothing that is accepted carries one of the listed conflicts ---------- *)
+(* for every keyword dictionary: if the model of Adjustments.__init__ accepts it, then no two
+   exclusive groups are present, every name is a parameter, the proxy options are consistent,
+   the socket list is homogeneous and supported, and (outside the known finding) the address
+   family handed to getaddrinfo honours ipv4 / ipv6 *)
+Theorem C20_accepted_sound : forall e kw a', construct e kw = Ok a' ->
+  exists a, assign_loop kw [] = Ok a /\ accepted_ok e kw a.
+Proof. exact construct_ok_sound. Qed.
+Print Assumptions C20_accepted_sound.
 
 (* ---------- the middleware switch in server.py ---------- *)
 Theorem C20_middleware : forall tp clear, middleware_installed tp clear = tp || clear.
